@@ -48,6 +48,19 @@ def scanner_jobs(prog, config="B0", profile="debug"):
     return jobs
 
 
+BYTES_FNS = ["parse_uri", "parse_version", "parse_method"]
+
+
+def bytesfn_jobs(prog, config="B0", profile="debug"):
+    """The doc(hidden) `_benchable` functions take `&mut Bytes`: safe to call with any cursor state
+    the safe Bytes API can produce."""
+    jobs = []
+    for name in BYTES_FNS:
+        if any(i["local"] and i["body"] and i["npath"] == name for i in prog.insts):
+            jobs.append({"kind": "bytesfn", "config": config, "profile": profile, "root": name})
+    return jobs
+
+
 def job_key(job):
     return hashlib.sha256(json.dumps(job, sort_keys=True).encode()).hexdigest()[:20]
 
@@ -84,6 +97,13 @@ def run_job(args):
             if job.get("summaries", True):
                 skip = set(job.get("no_summary") or ())
                 PR.install_scanner_summaries(ex.m, [n for n in scanner_names(prog) if n not in skip])
+        elif job["kind"] == "bytesfn":
+            inst = [i for i in prog.insts if i["npath"] == job["root"] and i["local"] and i["body"]]
+            if len(inst) != 1:
+                raise RuntimeError("function %s not found" % job["root"])
+            st = roots.bytes_state(ex.m, inst[0]["id"])
+            st.mon = MON.Monitor()
+            PR.install_scanner_summaries(ex.m, scanner_names(prog))
         else:
             inst = [i for i in prog.insts if i["npath"] == job["root"] and i["local"] and i["body"]]
             if len(inst) != 1:
